@@ -2,7 +2,19 @@ import Vgi.Model.Shm
 namespace Vgi.Drive.C34
 open Vgi Vgi.Shm
 
-def hdr (s : Seg) : String := hexArg (encodeHeader s)
+def fnv1a64 (bs : Bytes) : UInt64 :=
+  bs.foldl (fun h b => (h ^^^ b.toUInt64) * 0x100000001b3) 0xcbf29ce484222325
+
+/-- Live header bytes as hex; for large tables a checksum of the same bytes (keeps lines short). -/
+def hdr (s : Seg) : String :=
+  if s.table.length ≤ 64 then hexArg (encodeHeader s)
+  else s!"fnv:{(fnv1a64 (encodeHeader s)).toNat}:{s.table.length}"
+
+def fillLoop (sz : Int) : Nat → Seg → Nat → Seg × Nat
+  | 0, s, ok => (s, ok)
+  | n + 1, s, ok => match allocate s sz with
+    | some (_, s') => fillLoop sz n s' (ok + 1)
+    | none => fillLoop sz n s ok
 
 def showTable (t : Table) : String :=
   ",".intercalate (t.map fun e => s!"{e.1}:{e.2}")
@@ -22,6 +34,9 @@ def step (st : Option Seg) (ws : List String) : Option Seg × String :=
     | some e, some t => match allocateAndWrite s e t with
       | some (o, s') => (some s', s!"ok {o} {t} {hdr s'}")
       | none => (some s, "fail " ++ hdr s)
+    | _, _ => (st, "bad-op")
+  | some s, ["fill", n, sz] => match n.toNat?, sz.toInt? with
+    | some k, some z => let (s', ok) := fillLoop z k s 0; (some s', s!"filled {ok} {hdr s'}")
     | _, _ => (st, "bad-op")
   | some s, ["free", n] => match n.toNat? with
     | some k => match free s k with
